@@ -175,7 +175,7 @@ def spec_codon():
         {"id": "site", "type": "ConstantSiteModel"},
         {"id": "like", "type": "TreeLikelihoodModel", "tree_model": "tree", "site_model": "site",
          "substitution_model": "mg94", "site_pattern": "patterns"},
-        dist("prior_bl", "Exponential", "bl", {"rate": P("bl_rate", [10.0])}),
+        dist("prior_bl", "Exponential", "bl", {"rate": P("bl_rate", [10.0, 9.0, 11.0, 10.0, 12.0])}),
         joint("joint", ["like", "prior_bl"]),
     ])
 
@@ -209,7 +209,7 @@ def spec_general():
          "substitution_model": "jc", "site_pattern": "patterns", "branch_model": "clock", "use_tip_states": True},
         {"id": "poisson", "type": "PoissonTreeLikelihood", "tree_model": "tree", "branch_model": "clock",
          "edge_lengths": P("edges", [1, 2, 0, 3, 1, 2], "counts")},
-        dist("prior_rates", "LogNormal", "rates", {"loc": P("r_loc", [-4.0], REAL), "scale": P("r_scale", [0.5])}),
+        dist("prior_rates", "LogNormal", "rates", {"loc": P("r_loc", [-4.0] * 6, REAL), "scale": P("r_scale", [0.5])}),
         joint("joint", ["like_sym", "like_nonsym", "like_gjc", "like_jc", "poisson", "prior_rates"]),
     ])
 
@@ -231,19 +231,29 @@ def spec_distributions():
              {"loc": P("n_loc", [0.0, 0.5, -0.5], REAL), "scale": exp_of("n_scale", P("n_scale_u", [0.0, 0.1, -0.1], REAL))}),
         {"id": "cat", "type": "CatParameter", "parameters": ["y1", "mvn_x"], "dim": -1},
         {"id": "cat_exp", "type": "TransformedParameter", "transform": "torch.distributions.ExpTransform", "x": "cat"},
-        dist("gamma_on_cat", "Gamma", "cat_exp", {"concentration": P("g_conc", [2.0]), "rate": P("g_rate", [1.0])}),
+        dist("gamma_on_cat", "Gamma", "cat_exp", {"concentration": P("g_conc", [2.0, 2.5, 3.0, 2.0]), "rate": P("g_rate", [1.0])}),
         {"id": "affine", "type": "TransformedParameter", "transform": "torch.distributions.AffineTransform",
          "parameters": {"loc": 1.0, "scale": 2.0}, "x": ["y1", "y2"]},
-        dist("normal_affine", "Normal", "affine", {"loc": P("a_loc", [0.0], REAL), "scale": P("a_scale", [3.0])}),
+        dist("normal_affine", "Normal", "affine", {"loc": P("a_loc", [0.0, 0.5, 1.0], REAL), "scale": P("a_scale", [3.0])}),
         {"id": "detnorm", "type": "DeterministicNormal", "x": P("dn_x", [0.1, 0.2], REAL), "shape": [],
          "loc": P("dn_loc", [0.0, 0.0], REAL), "scale": P("dn_scale", [1.0, 1.0])},
+        # a concatenation of a transformed parameter, a view and a leaf, nested in another concatenation
+        P("vbase", [0.5, 1.5, 2.5]),
+        {"id": "v01", "type": "ViewParameter", "parameter": "vbase", "indices": ":2"},
+        {"id": "cat_mixed", "type": "CatParameter", "dim": -1,
+         "parameters": [exp_of("e1", P("e1_u", [0.1], REAL)), "v01", P("w1", [0.7])]},
+        {"id": "nested", "type": "CatParameter", "dim": -1, "parameters": ["cat_mixed", P("w2", [1.1, 0.9])]},
+        dist("lognormal_nested", "LogNormal", "nested",
+             {"loc": P("nn_loc", [0.0, 0.1, 0.2, 0.3, 0.4, 0.5], REAL), "scale": P("nn_scale", [0.5])}),
+        dist("gamma_view", "Gamma", "v01", {"concentration": P("gv_conc", [2.0, 3.0]), "rate": P("gv_rate", [1.0])}),
         {"id": "gmrf_y", "type": "GMRF", "x": "y2", "precision": "g_rate"},
         {"id": "gmrfcov", "type": "GMRFCovariate", "field": P("cov_field", [1.0, 2.0, 3.0], REAL),
          "precision": P("cov_prec", [0.5]), "covariates": P("cov_z", [[1.0, 2.0], [3.0, 4.0], [5.0, 6.0]], REAL),
          "beta": P("cov_beta", [0.1, -0.1], REAL)},
         {"id": "gmrfint", "type": "GMRFGammaIntegrated", "x": "cov_field", "shape": 1.5, "rate": 2.0},
         joint("joint", ["mvn", "bridge", "bridge2", "mix", "normal_cat", "gamma_on_cat", "cat_exp",
-                        "normal_affine", "affine", "detnorm", "gmrf_y", "gmrfcov", "gmrfint"]),
+                        "normal_affine", "affine", "detnorm", "gmrf_y", "gmrfcov", "gmrfint",
+                        "lognormal_nested", "gamma_view", "e1"]),
     ])
 
 
@@ -417,11 +427,20 @@ class Tracer:
                 o = frame.f_locals.get("self")
                 if id(o) in self.ids and self.ids[id(o)] is o:
                     fn = code.co_name
+                    if self.stack and self.stack[-1][1] is None:
+                        self.stack.append((id(frame), None))      # below a setter / handler: not a read
+                        return
+                    if (fn == "tensor" and code.co_argcount == 2) or fn.startswith("handle_") or \
+                            fn.startswith("fire_"):
+                        self.stack.append((id(frame), None))
+                        return
                     if fn in ("__init__", "__getattr__", "__setattr__", "__torch_function__") or \
-                            fn.startswith("handle_") or fn.startswith("fire_") or fn.startswith("add_"):
+                            fn.startswith("add_"):
                         return
                     s = self.slot_for(o, fn)
                     top = self.stack[-1][1] if self.stack else None
+                    if top is None and self.stack:
+                        return
                     if top is None:
                         self.top_reads.append(s)
                     elif top != s and (s, top) not in self.seen:
@@ -470,6 +489,10 @@ def observations(o, table):
                 else:
                     raise ExtractError(f"{qn(o)}: no observation known for flag {f}")
         return out
+    from torchtree.distributions.distributions import DistributionModel
+    if isinstance(o, DistributionModel) and isinstance(getattr(o, "x", None), AbstractParameter) \
+            and type(o).__name__ != "JointDistributionModel":
+        out.append(("m:sample", lambda: o.sample()))
     for f in flags:
         if f == "lp_needs_update" and isinstance(o, CallableModel):
             out.append(("f:" + f, lambda: o()))
@@ -612,7 +635,14 @@ def extract(spec, table, cls_names, flag_names):
     W.slot_name = [s[1] for s in slot_order]
     W.slot_deps = [[W.sindex[d] for d in deps[s]] for s in slot_order]
     W.slot_flag = [(flag_names.index(s[1][2:]) if s[1].startswith("f:") else None) for s in slot_order]
-    W.observable = [s in obs for s in slot_order]
+    W.observable = [s in obs and not s[1].startswith("m:sample") for s in slot_order]
+    # the slot holding the tensor of a parameter object (read by the setter of a concatenation)
+    W.obj_slot = []
+    for i in obj_order:
+        ks = [k for k, s in enumerate(slot_order) if s[0] == i and
+              (s[1] == "leaf" or s[1] == "m:tensor" or (s[1].startswith("f:") and s[1] != "f:lp_needs_update"))]
+        W.obj_slot.append(ks[0] if ks and kind_of(byid[i]) != "KOther" else 0)
+    W.sample_slot = {W.oindex[s[0]]: k for k, s in enumerate(slot_order) if s[1] == "m:sample"}
     W.unevaluable = {W.sindex[(i, sn)] for (i, sn, _) in dropped_ids}
     W.conservative = [W.sindex[s] for s in conservative]
     W.base_values = {k: dic[k].tensor.detach().tolist() for k, v in dic.items() if kind_of(v) == "KLeaf"}
@@ -670,7 +700,7 @@ def resolve(path, dic):
 def coq_graph(W):
     cidx = {n: i for i, n in enumerate(W.cls_names)}
     objs = "; ".join(f"mkObj {cidx[W.obj_class[i]]} {W.obj_kind[i]} {C.coq_list(W.listeners[i], C.natlit)} "
-                     f"{C.coq_list(W.targets[i], C.natlit)}" for i in range(len(W.obj_ids)))
+                     f"{C.coq_list(W.targets[i], C.natlit)} {W.obj_slot[i]}" for i in range(len(W.obj_ids)))
     slots = "; ".join(
         f"mkSlot {W.slot_owner[k]} {('(Some ' + str(W.slot_flag[k]) + '%nat)') if W.slot_flag[k] is not None else 'None'} "
         f"{'true' if W.slot_name[k] == 'leaf' else 'false'} {C.coq_list(W.slot_deps[k], C.natlit)}"
@@ -932,7 +962,7 @@ def model_op(W, op):
     if k in ("set", "propose", "reject"):
         return f"OAssign {op['obj']}"
     if k == "sample":
-        return f"OAssign {op['x']}"
+        return f"OEval {W.sample_slot[op['obj']]}; OAssign {op['x']}"
     if k == "inplace":
         return f"OInplaceFire {op['obj']}"
     if k == "fire":
@@ -1021,7 +1051,7 @@ def run_history(W, ops):
             stale = not same_value(got, ref, torch)
             detail = None
             if stale:
-                detail = dict(got=_show(got), fresh=_show(ref))
+                detail = dict(got=_show(got, ref), fresh=_show(ref, got))
             out.append(dict(kind="eval", stale=stale, calls=calls, flags=real.flags(), detail=detail,
                             exc=(got[0] == "exc")))
         else:
@@ -1034,9 +1064,20 @@ def run_history(W, ops):
     return out
 
 
-def _show(v):
+def _show(v, other=None):
+    """first entries of the value; when the other value is given, the entries where they differ most"""
     if v[0] == "exc":
         return f"raises {v[1]}"
+    if other is not None and other[0] == "val" and len(other[1]) == len(v[1]):
+        out = []
+        for x, y in zip(v[1], other[1]):
+            if x.shape == y.shape and x.numel() > 4 and x.dtype.is_floating_point:
+                d = (x - y).abs().flatten().nan_to_num(0.0)
+                idx = d.argsort(descending=True)[:3].sort().values
+                out.append({int(i): float(x.flatten()[i]) for i in idx})
+            else:
+                out.append(x.flatten()[:4].tolist())
+        return out
     return [x.flatten()[:4].tolist() for x in v[1]]
 
 
@@ -1044,7 +1085,13 @@ def parse_trace(W, ops, z):
     """Decode M_listen.trace output into the same per-op records."""
     nfl = sum(1 for f in W.slot_flag if f is not None)
     out, i = [], 0
+    expanded = []
     for op in ops:
+        if op["op"] == "sample":
+            expanded += [dict(op="eval", slot=W.sample_slot[op["obj"]], hidden=True), op]
+        else:
+            expanded.append(op)
+    for op in expanded:
         if i >= len(z):
             break
         tag = z[i]
@@ -1054,7 +1101,8 @@ def parse_trace(W, ops, z):
             flags = z[i + 3 + k:i + 3 + k + nfl]
             i += 3 + k + nfl
             calls = sorted({W.slot_owner[s] for s in rec if W.flag_names[W.slot_flag[s]] == "lp_needs_update"})
-            out.append(dict(kind="eval", stale=bool(stale), calls=calls, flags=flags, recomputed=rec))
+            if not op.get("hidden"):
+                out.append(dict(kind="eval", stale=bool(stale), calls=calls, flags=flags, recomputed=rec))
         elif tag == 1:
             out.append(dict(kind="upd", flags=z[i + 1:i + 1 + nfl]))
             i += 1 + nfl
@@ -1296,8 +1344,8 @@ def attribute(W, ops, recs, j, kind):
                     (W.slot_owner[m], W.flag_names[W.slot_flag[m]]) not in marked:
                 key, m2, _ = root_cause(W, l, m)
                 return (f"C11:{key}",
-                        f"{slot_label(W, k)} is stale after parameter '{W.obj_names[l]}' changed: "
-                        f"{key.split(':')[0]} leaves the cache of {slot_label(W, m2)} clean "
+                        f"{slot_label(W, k)} is stale after parameter '{W.obj_names[l]}' changed "
+                        f"[{key}: the cache of {slot_label(W, m2)} is left clean] "
                         f"(got {recs[j]['detail']['got']}, freshly built copy {recs[j]['detail']['fresh']})")
     return (f"C11:stale-unexplained:{short(W.obj_class[W.slot_owner[k]])}.{W.slot_name[k]}",
             f"{slot_label(W, k)} differs from a freshly built copy (got {recs[j]['detail']['got']}, fresh "
@@ -1390,6 +1438,7 @@ def run(tier, seed, replay=None):
     rng = random.Random(seed)
     torch = impl.load()
     torch.manual_seed(seed)
+    torch.set_num_threads(1)          # tiny tensors: intra-op threads only cost (and the machine is shared)
     t_start = time.time()
 
     ok_sync, info = sync()
@@ -1419,13 +1468,15 @@ def run(tier, seed, replay=None):
         if "done" in searched:
             return searched["done"]
         found = {}
+        runs = []
         r2 = random.Random(seed + 1)
-        for W, real in zip(Ws, reals):
+        nrand, ln = (8, 40) if tier == "quick" else (40, 400)
+        for gi, (W, real) in enumerate(zip(Ws, reals)):
             hs = one_step_histories(W, r2, real)
-            nrand, ln = (6, 40) if tier == "quick" else (25, 400)
-            hs += [gen_history(W, r2, r2.randint(ln // 2, ln), real) for _ in range(nrand)]
+            hs += [gen_history(W, r2, r2.randint(max(4, ln // 4), ln), real) for _ in range(nrand)]
             for ops in hs:
                 recs = run_history(W, ops)
+                runs.append((gi, ops, recs))
                 p = first_problem(W, ops, recs)
                 if p is None:
                     continue
@@ -1434,6 +1485,7 @@ def run(tier, seed, replay=None):
                     small = minimise(W, ops, recs, p[0])
                     found[key] = (key, what, replay_dict(W, small))
         searched["done"] = list(found.values())
+        searched["runs"] = runs
         return searched["done"]
 
     if replay:
@@ -1564,17 +1616,8 @@ def run(tier, seed, replay=None):
         rep.violation(*f)
     rep.timings["direct_search"] = round(time.time() - t0, 2)
 
-    t0 = time.time()
-    nhist, ln = (8, 40) if tier == "quick" else (40, 400)
-    jobs = []
-    for gi, (W, real) in enumerate(zip(Ws, reals)):
-        hs = one_step_histories(W, rng, real)
-        if tier == "quick":
-            hs = hs[::2]
-        hs += [gen_history(W, rng, rng.randint(max(4, ln // 4), ln), real) for _ in range(nhist)]
-        for ops in hs:
-            jobs.append((gi, ops, run_history(W, ops)))
-    rep.timings["impl_histories"] = round(time.time() - t0, 2)
+    jobs = searched.get("runs", [])
+    ln = 40 if tier == "quick" else 400
     t0 = time.time()
     mres = []
     try:
